@@ -1,4 +1,5 @@
-import GitSizer.Proofs.GraphRun7
+import GitSizer.Proofs.Scan
+import GitSizer.Gen.Cmds
 import GitSizer.Proofs.GraphTrees
 import GitSizer.Proofs.GraphCommits
 /-! # C09 — Numeric results are independent of enumeration order
@@ -62,5 +63,34 @@ theorem whole_run_order_independent (r : Repo) (ops1 ops2 : List Op) (v1 : Valid
 theorem whole_run_completes (r : Repo) (ops : List Op) (v : ValidRun r ops) :
     ∃ st, runOps r ops {} = .ok st ∧ historySize r st = .ok st.hist :=
   let ⟨st, h, hs, _⟩ := v.result; ⟨st, h, hs⟩
+
+/-- **the driver's phase order, as it stands in the source** (regenerated from
+    `sizes.ScanRepositoryUsingGraph` on every run): blobs while the listing streams, then trees in
+    listing order, commits in REVERSE listing order, tags in listing order, references last; the
+    batch requests are issued in the same order; and the listing loop sorts objects by type. -/
+theorem driver_phases :
+    Gen.Cmds.scanRegisters.map (fun x => (x.1, x.2.2)) = Scan.phases ∧
+    Gen.Cmds.scanRegisters.map (·.2.1) = ["stream", "trees", "commits", "tags", "roots"] ∧
+    Gen.Cmds.scanRequests = [("trees", false), ("commits", true), ("tags", false)] ∧
+    Gen.Cmds.scanCollects = [("blob", "RegisterBlob"), ("tree", "append trees"), ("commit", "append commits"),
+      ("tag", "append tags")] := by decide
+
+/-- **Whole-scan theorem**: for EVERY repository description and EVERY listing that honours git's
+    `rev-list --objects --date-order` contract (no duplicates, closed under the walked edges, no
+    commit preceded by one of its parents — in particular for every order git may choose among
+    siblings, every pack layout, every root order), the driver's schedule completes without panic
+    or pending record, and all 22 numbers are the clamps of the true values over the listed
+    objects. Two listings of the same objects therefore give the same numbers. -/
+theorem scan_order_independent (r : Repo) (ok : RepoOK r) (ty : Scan.Typed r) (L1 L2 : List Nat)
+    (h1 : Scan.Listing r L1) (h2 : Scan.Listing r L2) (same : L1.Perm L2)
+    (refs1 refs2 : List (List Bytes)) (hr : refs1.length = refs2.length)
+    (sizes : ∀ i, Repo.sizeOf r i < 2 ^ 64) (nparents : ∀ c, (r.parents c).length < 2 ^ 64) :
+    ∃ a b, Scan.scan r L1 refs1 = .ok a ∧ Scan.scan r L2 refs2 = .ok b ∧ allNums a = allNums b := by
+  obtain ⟨a, ha, ra⟩ := Scan.scan_numbers r ok ty L1 h1 refs1 sizes nparents
+  obtain ⟨b, hb, rb⟩ := Scan.scan_numbers r ok ty L2 h2 refs2 sizes nparents
+  refine ⟨a, b, ha, hb, ?_⟩
+  rw [hr] at ra
+  exact (ra.perm (same.filter _) (same.filter _)
+    ((List.reverse_perm _).trans ((same.filter _).trans (List.reverse_perm _).symm)) (same.filter _)).nums_eq rb
 
 end GitSizer.C09
